@@ -230,9 +230,12 @@ func TestC14_Invalid(t *testing.T) {
 		}
 		st := g.Expand("stateBytes", stl)
 		if stl == 52 {
-			// keep the counter small so the restore (which skips blocks with SetCounter) stays in the documented range
-			for i := 48; i < 52; i++ {
-				st[i] = 0
+			// a state as Store() returns it after `counter` output bytes; the counter stays inside the
+			// documented 256 GiB (2^38-byte) stream, and is often beyond 2^32 bytes
+			st[49], st[50], st[51] = 0, 0, 0
+			st[48] &= 0x1F
+			if g.Bool("counterBelow4GiB") {
+				st[48] = 0
 			}
 		}
 		r2, err := random.RestoreChacha20PRG(st)
